@@ -8,7 +8,7 @@ HARNESS = os.path.join(VERIF, "harness")
 GEN_TARGET = os.path.join(VERIF, ".target", "gen")
 OUT = os.path.join(HARNESS, "src", "generated")
 
-SHAPE_PROPS = {"C01", "C02", "C03", "C04", "C06", "C07", "C09", "C17"}
+SHAPE_PROPS = {"C01", "C02", "C03", "C04", "C06", "C07", "C09", "C13", "C17"}
 OWN = {"C08": "c08", "C12": "c12", "C18": "c18"}
 
 
@@ -22,8 +22,10 @@ def build_gen(run):
     return None
 
 
-def run_gen(what, tier, seed, run):
-    rc, out, dt = run([os.path.join(GEN_TARGET, "release", "gen"), what, tier, str(seed), OUT], logf=os.path.join(VERIF, "logs", "gen_%s.log" % what))
+def run_gen(what, tier, seed, run, prop=None):
+    # MSVERIF_PROP: the shapes generator adds the (large) interpreter tables only for C13
+    env = dict(os.environ, MSVERIF_PROP=prop or "")
+    rc, out, dt = run([os.path.join(GEN_TARGET, "release", "gen"), what, tier, str(seed), OUT], env=env, logf=os.path.join(VERIF, "logs", "gen_%s.log" % what))
     if rc != 0:
         return None, "generator %s failed (rc=%d): %s" % (what, rc, out[-800:])
     return out, None
@@ -46,7 +48,7 @@ def generate(prop, tier, seed, run, log):
         return {"error": err}
     info = {}
     for w in whats:
-        out, err = run_gen(w, tier, seed, run)
+        out, err = run_gen(w, tier, seed, run, prop)
         if err:
             return {"error": err}
         p = os.path.join(OUT, "%s_info.json" % w)
